@@ -228,6 +228,26 @@ func (vc *VC) solveOne(o *Obligation, file string, timeoutS int, strict bool) {
 		return
 	}
 	o.Status = "unknown"
+	// every back end rejected the query: an ill-formed VC is an engine/contract error, say so
+	nerr := 0
+	first := ""
+	for _, out := range o.Outputs {
+		if strings.Contains(out, "(error") {
+			nerr++
+			if first == "" {
+				for _, ln := range strings.Split(out, "\n") {
+					if strings.Contains(ln, "(error") && !strings.Contains(ln, "model is not available") {
+						first = ln
+						break
+					}
+				}
+			}
+		}
+	}
+	if nerr == len(o.Outputs) && first != "" {
+		o.Status = "error"
+		o.Failed = "all solvers rejected the query: " + first
+	}
 }
 
 func trimOut(s string) string {
